@@ -24,7 +24,7 @@ def gen_prog(r):
     nsh = r.rng(1, 4)
     n = r.choice([0, 1, 3, 5, 8, 14])
     rows = " ".join("%d:%d" % (r.below(6), r.rng(0, 20)) for _ in range(n))
-    stmts = ["N0=" + r.choice(["const %d %s" % (nsh, rows), "reader %d %d %s" % (nsh, r.rng(1, 3), rows)])]
+    stmts = ["N0=" + r.choice(["const %d %s" % (nsh, rows), "reader %d %d %s" % (nsh, r.rng(1, 3) + (10 if r.chance(1, 2) else 0), rows)])]
     caches = []      # (name, nshard)
     ncache = 0
     for i in range(r.rng(2, 6)):
